@@ -151,7 +151,7 @@ pub fn boost(mut w: Vec<(Kind, u32)>, kinds: &[Kind], weight: u32) -> Vec<(Kind,
 }
 
 /// (shape, N, M) combinations the executor is monomorphised for.
-pub const MENU: [(Shape, usize, usize); 40] = [
+pub const MENU: [(Shape, usize, usize); 43] = [
     (Shape::Small, 0, 0),
     (Shape::Small, 0, 2),
     (Shape::Small, 1, 1),
@@ -192,6 +192,9 @@ pub const MENU: [(Shape, usize, usize); 40] = [
     (Shape::ZstVal, 0, 1),
     (Shape::Aligned, 3, 2),
     (Shape::Small, 300, 3),
+    (Shape::Small, 12, 9),
+    (Shape::Small, 64, 11),
+    (Shape::Boxed, 24, 6),
 ];
 
 pub struct G<'a> {
@@ -439,6 +442,7 @@ impl G<'_> {
                         de_fail_at: if faults && self.r.chance(1, 3) { Some(self.r.below(10) as u16) } else { None },
                         dup_at: if faults && self.r.chance(1, 2) { Some(self.r.below(40) as u16) } else { None },
                         in_place: self.r.chance(1, 4),
+                        json: if self.r.chance(1, 3) { 1 + self.r.below(3) as u8 } else { 0 },
                     },
                 }
             }
